@@ -35,6 +35,78 @@ def check(ctx):
     r4 = Rule("C18-D4-zod-image", "D4",
               "on a mapping hit the Zod visitor renders string -> z.string(), number -> z.number(), boolean -> z.boolean()",
               "another image validates the mapped field against the wrong primitive")
+    # who may render a Custom type: every pattern on TypeStructure::Custom inside a String-returning function of the generators hands the name to a
+    # renderer that does the lookup (visit_custom / visit_type / render_type), or is one of the three renderers checked below
+    from srclib import walk, walk_block as _wb, pat_bindings as _pb
+    RENDER_CALLS = ("visit_custom", "visit_type", "visit_type_for_interface", "render_type", "build_schema", "build_param_schema")
+    n_custom_arms = 0
+    # functions that only serve a Tera filter no rendered template uses are not renderers of this tool's output
+    from c01 import registered_filters
+    from tplpaths import Templates
+    from srclib import tera_walk
+    T_ = Templates(S)
+    used_filters = set()
+    for tn in T_.reachable_templates():
+        def filt(e):
+            for f_ in e.get("filters", []):
+                used_filters.add(f_["name"])
+                for _, a in f_["args"]:
+                    filt(a)
+            v = e.get("val", {})
+            for key in ("l", "r"):
+                if isinstance(v.get(key), dict):
+                    filt(v[key])
+        for node in tera_walk(T_.ast_of(tn) or []):
+            for key in ("e", "value", "container"):
+                if isinstance(node.get(key), dict):
+                    filt(node[key])
+            for c_ in node.get("conds", []) if node.get("k") == "if" else []:
+                filt(c_["cond"])
+    dead_roots = {fn_.name for name_, fn_ in registered_filters(S).items() if name_ not in used_filters}
+    gen_fns = [g for g in S.fns if g.body is not None and "/generators/" in "/" + g.file]
+    calls_of = {}
+    for g in gen_fns:
+        names = set()
+        for e in _wb(g.body):
+            if e.get("k") == "mcall":
+                names.add(e["method"])
+            elif e.get("k") == "call" and e["func"].get("k") == "path":
+                names.add(e["func"]["segs"][-1])
+        calls_of[g.name] = calls_of.get(g.name, set()) | names
+    called = set(n for ns in calls_of.values() for n in ns)
+    live = set(g.name for g in gen_fns if g.name not in called and g.name not in dead_roots)
+    work = list(live)
+    while work:
+        n_ = work.pop()
+        for m_ in calls_of.get(n_, ()):
+            if m_ not in live and m_ in calls_of:
+                live.add(m_)
+                work.append(m_)
+    for fn in S.fns:
+        if fn.body is None or "/generators/" not in "/" + fn.file or "String" not in (fn.sig.get("ret") or ""):
+            continue
+        if fn.name not in live:
+            r1.notes.append("%s: only reachable from a Tera filter that no rendered template uses (%s)" % (fn.qname, sorted(dead_roots)))
+            continue
+        for e in _wb(fn.body):
+            arms = []
+            if e.get("k") == "match":
+                arms = [(a["pat"], a["body"]) for a in e["arms"]]
+            elif e.get("k") == "if" and e["cond"].get("k") == "letcond":
+                arms = [(e["cond"]["pat"], {"k": "block", "stmts": e["then"]})]
+            for pat, body in arms:
+                pats = pat["cases"] if pat.get("k") == "or" else [pat]
+                if not any((p.get("path") or p.get("segs") or [""])[-1] == "Custom" for p in pats):
+                    continue
+                n_custom_arms += 1
+                calls = [x for x in walk(body) if (x.get("k") == "mcall" and x["method"] in RENDER_CALLS)
+                         or (x.get("k") == "call" and expr_text(x["func"]).split("::")[-1] in RENDER_CALLS)]
+                lookups = [x for x in walk(body) if x.get("k") == "mcall" and x["method"] == "get" and "mapping" in expr_text(x["recv"])]
+                if calls or lookups:
+                    r1.ok("%s: Custom arm delegates to %s" % (fn.qname, sorted(set((x.get("method") or expr_text(x["func"])) for x in calls)) or "a type_mappings lookup"))
+                else:
+                    r1.bad(V(r1.id, fn.qname, "custom-arm-without-lookup:%s" % expr_text(body)[:40],
+                             "%s renders TypeStructure::Custom itself (%s) without consulting type_mappings or delegating to a renderer that does" % (fn.qname, expr_text(body)[:60]), fn.file, fn.line))
     entries = [("TypeScriptVisitor", "visit_type"), ("ZodVisitor", "visit_type"), ("ZodVisitor", "visit_type_for_interface")]
     for owner, entry in entries:
         res = resolver(S, owner)
@@ -208,6 +280,19 @@ def check(ctx):
                                 uses = True
                     if uses:
                         okd = True
+        # ... and the filter is the last word on the declared set: no insertion can follow it
+        f0 = P.fns[gid]
+        from rulelib import blocks_reachable_from
+        late = []
+        for c in f0.calls:
+            if short_path(c.path) in ("HashMap::retain", "HashMap::remove") and "StructInfo" in " ".join(c.generics + [c.self_ty or ""]):
+                after = blocks_reachable_from(f0, c.bb)
+                late += [i for i in f0.calls if i.bb in after and short_path(i.path) in ("HashMap::insert", "HashMap::extend") and "StructInfo" in " ".join(i.generics + [i.self_ty or ""])]
+        if late:
+            okd = False
+            r6.bad(V(r6.id, gid, "insert-after-mapping-filter", "types are inserted into the declared set after the mapped names were removed from it: a mapped type reachable from an event payload is declared again",
+                     late[0].file, late[0].line))
+            continue
         if okd:
             r6.ok("%s filters mapped names out of the declared set" % short_path(gid))
         else:
